@@ -11,6 +11,15 @@ TESTDIR = "/repo/resources/test"
 NAME_PARTS = [b"a", b"file", b"Test1", b"x.bin", b"x.bin.lz", b"dir/sub/f", b"UPPER.ARC", b"name with space", b"0", b"_", b"Count", b"Info", b"Data"]
 SJ_NAMES = [b"\x83\x65\x83\x58\x83\x67", b"\x95\x5c.bin", b"\xc3\xbd\xc4", b"\x93\xfa\x96\x7b\x8c\xea.lz", b"\x83\x5c\x83\x5c"]
 
+# codec-edge names (Shift-JIS bytes), each with an ASCII extension: half-width katakana pairs that are also well-formed UTF-8
+# two-byte sequences (C2..DF + A1..BF: CE BC = U+03BC, D0 BD = U+043D, C3 BD = U+00FD, D1 A1, C2 A9), a kanji + half-width
+# katakana triple that is well-formed UTF-8 (E3 81 A1 = U+3061, E4 B8 A1), and the CP932 row-1 symbols whose Unicode mapping
+# differs from JIS X 0208 (81 60 U+FF5E, 81 7C U+FF0D, 81 5F U+FF3C, 81 61 U+2225, 81 91 / 81 92, 81 5C).  A decoder that
+# sniffs the encoding ("try UTF-8 first", seeded C16-10 / C17-8) or "repairs" a mapping (C15-8) changes these names.
+CODEC_NAMES = [b"\xce\xbc.bin", b"\xd0\xbd.bin", b"\xc3\xbd.lz", b"\xd0\xbd\xd1\xa1.arc", b"\xc2\xa9", b"\xce\xbc\xce\xbc\xce\xbc.bin",
+               b"\xe3\x81\xa1.bin", b"\xe4\xb8\xa1.lz", b"dir/\xce\xbc", b"\x81\x60.bin", b"a\x81\x60b.lz", b"\x81\x7c.bin", b"\x81\x5f.bin",
+               b"\x81\x61x.bin", b"\x81\x91\x81\x92.bin", b"\x81\x5c.bin"]
+
 
 def rnd_files(rng, n, maxlen):
     names = set()
@@ -23,8 +32,10 @@ def rnd_files(rng, n, maxlen):
             nm = rng.choice([b"Data", b"Count", b"Info", b"Header", b"data"])
         elif r < 0.6:
             nm = rng.choice(NAME_PARTS) + (str(len(files)).encode() if rng.random() < 0.8 else b"")
-        elif r < 0.8:
+        elif r < 0.7:
             nm = rng.choice(SJ_NAMES) + str(len(files)).encode()
+        elif r < 0.8:
+            nm = rng.choice(CODEC_NAMES)
         else:
             nm = bytes(rng.randint(0x21, 0x7E) for _ in range(rng.randint(1, 12)))
         if nm in names:
@@ -196,6 +207,15 @@ class C16(PropertyCheck):
             image, exp = txtfile.arc_write(fs, rng, padded=bool(rep & 1), count_first=bool(rep & 2), extra_labels=bool(rep & 4),
                                            shuffle_tables=bool(rep & 8), junk_text=bool(rep & 16), tail_share=True)
             cases.append(Case(render(image, exp, fs, bool(rep & 1)), "tail-shared-strings"))
+        # codec-edge names as file names and (extra_labels: the name is also a label on its record) as label text
+        for rep in range(32 if quick else 320):
+            k = 1 + rep % 4
+            names = [CODEC_NAMES[(rep * 3 + j * 5) % len(CODEC_NAMES)] for j in range(k)]
+            names = list(dict.fromkeys(names))
+            fs = [(n, bytes(rng.getrandbits(8) for _ in range(rng.choice([0, 1, 6, 9])))) for n in names]
+            image, exp = txtfile.arc_write(fs, rng, padded=bool(rep & 1), count_first=bool(rep & 2), extra_labels=bool(rep & 4) or rep % 3 == 0,
+                                           shuffle_tables=bool(rep & 8), tail_share=bool(rep & 16))
+            cases.append(Case(render(image, exp, fs, bool(rep & 1)), "codec-edge-names"))
         # a missing label is an error also when NOTHING is packed (count word 0): Count present + Info absent, Info present +
         # Count absent, both absent - padded or not, Count before or after Info, with and without other labels (seeded C16-8)
         for drop in ("info", "count", "both"):
